@@ -34,7 +34,7 @@ Definition run_meth (m : meth) : option (list chunk) :=
   | MU8 x => Some (enc_u8 x) | MU16 x => Some (enc_u16 x) | MU32 x => Some (enc_u32 x) | MU64 x => Some (enc_u64 x)
   | MI8 x => Some (enc_i8 x) | MI16 x => Some (enc_i16 x) | MI32 x => Some (enc_i32 x) | MI64 x => Some (enc_i64 x)
   | MInt neg v => Some (enc_int neg v)
-  | MSimple x => enc_simple x
+  | MSimple x => Some (enc_simple x)
   | MBool b => Some (enc_bool b) | MNull => Some enc_null | MUndefined => Some enc_undefined
   | MChar x => Some (enc_char x)
   | MF16bits b => Some (enc_f16_bits b) | MF32 b => Some (enc_f32 b) | MF64 b => Some (enc_f64 b)
@@ -56,8 +56,10 @@ Definition item_of (m : meth) : item :=
   | MBytes b => IBytes b | MStr b => IText b
   end.
 
-(* simple values 24..=31 have no well-formed encoding (RFC 8949 3.3); the encoder refuses them *)
-Definition simple_unassigned (m : meth) : bool :=
+(* simple values 24..=31 have no well-formed encoding (RFC 8949 3.3: the two-byte forms f8 00..f8 1f
+   are not well-formed); Encoder::simple does not refuse them but writes f8 x (open finding F2b), so the
+   statements about well-formed / preferred output are made for the complement of this class *)
+Definition simple_reserved (m : meth) : bool :=
   match m with MSimple x => (24 <=? x) && (x <? 32) | _ => false end.
 
 (* header-only methods: tag, array, map *)
